@@ -608,6 +608,36 @@ def shard(ctx):
                 except (IndexError, TypeError):
                     continue
                 judge_aliased_any(ctx, spec, nspec_ns, p, rng)
+            # a key the class does not know, or knows already (a second
+            # occurrence), or keeps out of yatiml's sight (keyword-only
+            # parameter), in front of a decorated plain tree: tags below it
+            # count as little as below an Any position
+            from checks import c17
+            try:
+                cms = c17.class_mappings(m, spec, v, nspec)
+            except Exception:
+                cms = []
+            rng.shuffle(cms)
+            for p, cname in cms[:2]:
+                node = D.get_at(nspec, p)
+                have = [k[2] for k, _ in node[1] if k[0] == 's']
+                pool = ['verif_unknown', 'self', 'return', 'kw_' +
+                        cname.lower()] + have[:3] + [
+                    h.replace('_', '-') for h in have[:2] if '_' in h]
+                key = rng.choice(pool)
+                n2 = copy.deepcopy(node)
+                idx = rng.randint(0, len(n2[1]))
+                n2[1].insert(idx, [['s', S.TAG_STR, key],
+                                   ['s', S.TAG_NULL, '~']])
+                nspec2 = D.set_at(nspec, p, n2)
+                tree = plain_tree(rng, m, cn)
+                n_out = [0]
+                dtree = decorate(tree, rng, cn, n_out)
+                if not n_out[0]:
+                    continue
+                ctx.count('decorated_pairs_below_unexpected_key')
+                judge_decorated(ctx, spec, nspec2, tuple(p) + (('v', idx),),
+                                tree, dtree, rng.choice(['block', 'flow']))
     # whole documents typed Any
     spec0 = {'classes': [
         {'name': 'Victim', 'kind': 'plain',
